@@ -46,6 +46,9 @@ func OTree(t *rapid.T, depth int) *ONode {
 	case 1:
 		n := &ONode{Kind: 'a'}
 		k := sim.Intn(t, 5, "alen")
+		if sim.Intn(t, 12, "longarr") == 11 {
+			k = 9 + sim.Intn(t, 8, "alen2") // two-digit indexes
+		}
 		for i := 0; i < k; i++ {
 			n.Kids = append(n.Kids, OTree(t, depth-1))
 		}
